@@ -206,6 +206,13 @@ class Builder:
         return out
 
 
+def flat_kinds(forest):
+    for kind, kids in forest:
+        yield kind
+        for k in flat_kinds(kids):
+            yield k
+
+
 def build(forest):
     b = Builder()
     nodes = [T('<')] + b.body(forest) + [T('>')]
@@ -226,7 +233,11 @@ def cases(tier):
                      'fin', 'sub', 'treex')
         for forest in forests(n, kinds):
             idx += 1
-            pairs = n <= 2 if tier == 'quick' else n <= 3
+            core = ('in', 'inmap', 'with', 'let', 'if', 'try', 'tryh',
+                    'fin', 'sub', 'treex', 'tryf', 'raise')
+            pairs = n <= 2 if tier == 'quick' else (
+                n <= 2 or (n == 3 and all(k in core for k in
+                                          flat_kinds(forest))))
             yield {'forest': forest, 'pairs': pairs,
                    'syntax': SYNTAXES[idx % 3]}
 
